@@ -3,6 +3,7 @@ package props
 import (
 	"bytes"
 	"fmt"
+	"os"
 
 	"fgverif/kern"
 	"fgverif/ref"
@@ -388,6 +389,9 @@ func (c03) Exec(tr *Trace, keep bool) *Outcome {
 		rec, log := runR(c.R, true, keep)
 		o.fold(log, true)
 		h = h*0x100000001b3 ^ rDigest(rec)
+		if os.Getenv("FGSIM_DUMP_SWEEP") != "" {
+			fmt.Fprintf(os.Stderr, "sweep k=%d out=%d kind=%s digest=%x\n", k-1, len(rec.Out), rec.Kind, rDigest(rec))
+		}
 		malformedCheck(c, o, rec, "C03")
 		if len(o.Violations) > 4 {
 			break
@@ -1022,7 +1026,35 @@ func (c18) Gen(r *kern.Rng, tier string, idx int) *Trace {
 	sc.Src = genSrc(r, true)
 	sc.Del = genDelivery(r)
 	sc.Reads = genReads(r)
-	return &Trace{Property: "C18", Family: "R-* cross-level", R: sc}
+	if pkg == "flate" && r.Pct(15) {
+		sc.Prior = []scen.Prior{genPrior(r, "flate")}
+	}
+	tr := &Trace{Property: "C18", Family: "R-* cross-level", R: sc}
+	if idx%40 == 7 {
+		// every truncation point of a small valid stream, at every level
+		sc.In = scen.InputSpec{Parts: []scen.StreamSpec{genStream(r, pkg, 3000, 0)}}
+		sc.Prior = nil
+		tr.Sweep, tr.Stride, tr.Family = true, 1, "R-trunc(every byte) cross-level"
+		if tier != "thorough" {
+			tr.Stride = 0
+		}
+	}
+	return tr
+}
+
+// noteSub records one (sub-)run for the parent's level-difference explanation.
+func noteSub(o *Outcome, k int, rec *scen.RRec) {
+	if !ExplainMode || rec == nil || rec.Built == nil {
+		return
+	}
+	sr := SubResult{K: k, Kind: kindClass(rec.Kind), OutLen: len(rec.Out), Digest: rDigest(rec)}
+	in := rec.Built.Bytes
+	// the flate part of a container starts after its header; for the explanation
+	// only raw flate inputs are classified against the reference inflater
+	rr := ref.Inflate(in, ref.Options{MaxOut: 64 << 20})
+	sr.RefPrefix = !rr.TooBig && bytes.HasPrefix(rr.Out, rec.Out)
+	sr.RefTrunc = rr.Truncated && rr.Defect == nil
+	o.Subs = append(o.Subs, sr)
 }
 
 func (c18) Exec(tr *Trace, keep bool) *Outcome {
@@ -1055,12 +1087,34 @@ func (c18) Exec(tr *Trace, keep bool) *Outcome {
 	}
 	o := &Outcome{}
 	sc := tr.R
+	if tr.Sweep {
+		bt := sc.In.Build()
+		o.Sample = rSample(sc) + " (every truncation point)"
+		if bt.BuildErr != "" {
+			return o
+		}
+		o.LevelIndep = !bt.FastMade
+		o.stat("truncation_sweeps", 1)
+		h := uint64(0)
+		for _, k := range sweepPositions(len(bt.Bytes), tr.Stride, 400, 60) {
+			c := cloneR(sc)
+			c.In.Mut = append(c.In.Mut, scen.Mutation{K: "trunc", Pos: k - 1})
+			rec, log := runR(c, true, keep)
+			o.fold(log, true)
+			h = h*0x100000001b3 ^ rDigest(rec)
+			noteSub(o, k-1, rec)
+			o.stat("ended_"+kindClass(rec.Kind), 1)
+		}
+		o.Digest = h
+		return o
+	}
 	rec, log := runR(sc, true, keep)
 	o.Digest = rDigest(rec)
 	o.InputHash = inputHash(rec)
 	o.LevelIndep = rec.Built != nil && !rec.Built.FastMade && rec.Built.BuildErr == ""
 	o.Sample = rSample(sc)
 	o.fold(log, rec.Built != nil && len(rec.Built.Bytes) > 24)
+	noteSub(o, -1, rec)
 	o.stat("ended_"+kindClass(rec.Kind), 1)
 	if rec.Panic != "" {
 		o.stat("panics(C03 subject; still compared across levels)", 1)
